@@ -1,5 +1,5 @@
 SPECIFICATION Spec
 CONSTANTS MaxFlags = 2
 NInputs = 2
-INVARIANTS TableFunctional DenotesOK
+INVARIANTS TypesKnown TableFunctional DenotesOK
 CHECK_DEADLOCK FALSE
